@@ -11,6 +11,7 @@
 //	main.go   hugeLoop    256 KiB (thorough: 1 MiB) plaintext / associated data
 //	ctr.go    ctrHunt     (key, pt, ad) searched so that the masked SIV's low 8/16/24 bits wrap inside the message
 //	ctr.go    ctrDirect   the CTR layer alone (hook VerifCtrCrypt) on IVs whose low k bits are (nearly) all ones
+//	sizes.go  sizeLoop    inputs of k·64 KiB + d, 1 MiB ± …, k·4 KiB + d bytes, sent as `@<len>:<seed>` (ops X …gen)
 //	replay.go replay      re-evaluates the op lines of a replay file on the implementation
 package main
 
@@ -486,4 +487,5 @@ func main() {
 	hugeLoop(o, hlib.NewRng(seed, "c08/huge"))
 	ctrHunt(o, hlib.NewRng(seed, "c08/hunt"))
 	ctrDirect(o, hlib.NewRng(seed, "c08/ctr"))
+	sizeLoop(o, hlib.NewRng(seed, "c08/sizes"))
 }
